@@ -946,12 +946,26 @@ class Interp:
             t = {}
             k0 = x.const
             again = False
+            # a slice s[lo..hi) whose lower bits s[0..lo) are all known constants is (s[0..hi) - K) / 2^lo: rewrite it as the slice from
+            # bit 0 when the coefficient allows (2^lo divides it), so that the whole-symbol identification below applies
+            terms = {}
             for (sym, lo, hi), c in x.terms.items():
+                if lo > 0 and c % (1 << lo) == 0:
+                    full = self.reduce_bits(st, BV.sym(64, sym)).bits
+                    known = [full[i] if full[i] in (0, 1) else st.env.get((sym, i)) for i in range(0, lo)]
+                    if all(b in (0, 1) for b in known):
+                        K = sum(b << i for i, b in enumerate(known))
+                        terms[(sym, 0, hi)] = terms.get((sym, 0, hi), 0) + (c >> lo)
+                        k0 -= (c >> lo) * K
+                        continue
+                terms[(sym, lo, hi)] = terms.get((sym, lo, hi), 0) + c
+            for (sym, lo, hi), c in terms.items():
                 key = (sym, lo, hi)
                 if lo == 0:
                     r = st.rng.get(sym)
                     if hi >= 64 or (r and max(y for _, y in r) < (1 << hi)):
                         key = (sym, 0, -1)
+                        again = again or sym in st.defs
                     elif hi < 64:
                         # bits hi.. of the symbol are all known constants: x[0..hi] = x - K
                         full = self.reduce_bits(st, BV.sym(64, sym)).bits
@@ -1375,6 +1389,22 @@ class Interp:
     def narrow(self, st, bv, lo=None, hi=None, prop=True):
         n = self.sym_of(bv, st)
         if n is None:
+            # x << k (k zeros, then the bits of one symbol from bit 0 up, then zeros): bounds on it are bounds on x - provided the bits
+            # of x that fell off the top are known to be zero (x's range fits the slice)
+            k = 0
+            while k < bv.w and bv.bits[k] == 0:
+                k += 1
+            m = 0
+            nm = None
+            while k + m < bv.w and isinstance(bv.bits[k + m], tuple) and bv.bits[k + m][0] == 'v' and not bv.bits[k + m][3] and bv.bits[k + m][2] == m and \
+                    (nm is None or bv.bits[k + m][1] == nm):
+                nm = bv.bits[k + m][1]
+                m += 1
+            if nm is not None and 0 < k and m > 0 and all(b == 0 for b in bv.bits[k + m:]):
+                r = st.rng.get(nm)
+                if r and max(y for _, y in r) < (1 << m):
+                    x = self.reduce_bits(st, BV.sym(bv.w, nm))
+                    self.narrow(st, x, None if lo is None else ((lo + (1 << k) - 1) >> k), None if hi is None else (hi >> k), prop)
             return
         z = bv.low_zeros()
         out = []
